@@ -111,8 +111,9 @@ type c09Case struct {
 	Style  string `json:"style"`
 	Roles  []int  `json:"roles"`
 	Shadow int    `json:"shadow"`
-	Second bool   `json:"second"`          // also import a second package with the same name under an alias
-	Local  int    `json:"local,omitempty"` // index into c09Locals
+	Second bool   `json:"second"`           // also import a second package with the same name under an alias
+	Local  int    `json:"local,omitempty"`  // index into c09Locals
+	Blanks bool   `json:"blanks,omitempty"` // the file also has two blank imports
 	Src    string `json:"src,omitempty"`
 }
 
@@ -134,6 +135,9 @@ func c09Source(cs c09Case) string {
 	if cs.Second {
 		b.WriteString("\nimport d2 \"other.org/dep\"\n\nvar second = d2.Fn()\n")
 	}
+	if cs.Blanks {
+		b.WriteString("\nimport (\n\t_ \"x.org/blank1\"\n\t_ \"x.org/blank2\"\n)\n")
+	}
 	b.WriteString("\nconst base = " + q + "K\n") // every file uses its import
 	for _, r := range cs.Roles {
 		b.WriteString("\n" + strings.ReplaceAll(c09Roles[r], "{Q}", q) + "\n")
@@ -147,7 +151,7 @@ func c09Source(cs c09Case) string {
 
 func c09World(dep int) *oracle.World {
 	d := c09DepPaths[dep]
-	w := oracle.NewWorld(map[string]string{d.Import: c09Dep, "other.org/dep": c09Dep})
+	w := oracle.NewWorld(map[string]string{d.Import: c09Dep, "other.org/dep": c09Dep, "x.org/blank1": "package blank1\n", "x.org/blank2": "package blank2\n"})
 	w.Real = map[string]string{d.Import: d.Real}
 	return w
 }
@@ -163,7 +167,7 @@ func init() {
 	core.Register(&core.Prop{
 		ID:    "C09",
 		Level: "model_checking",
-		Rule: "typed worlds: a dependency under 5 paths (plain, dotted, vendored, nested-vendored, root vendor directory) x import style {plain, alias, dot} x every role of a 28-role catalogue singly x 5 shadowing modes x with/without a second import of an equally named package x (single roles) 3 locations of the local package itself (plain; inside a vendor directory with the Decorator told the full path; same, told the stripped path), and every ordered pair of roles (quick: 2 shadowing modes; thorough: all 5, with/without the second import); " +
+		Rule: "typed worlds: a dependency under 5 paths (plain, dotted, vendored, nested-vendored, root vendor directory) x import style {plain, alias, dot} x every role of a 28-role catalogue singly x 5 shadowing modes x with/without a second import of an equally named package x with/without two blank imports x (single roles) 3 locations of the local package itself (plain; inside a vendor directory with the Decorator told the full path; same, told the stripped path), and every ordered pair of roles (quick: 2 shadowing modes; thorough: all 5, with/without the second import); " +
 			"only files that type-check are in the quantifier; the same annotation is required from DecorateFile, from DecorateNode on every declaration alone and on a package node, from NewDecoratorFromPackage and from a Decorator configured through its fields; oracle computed from go/types: an identifier carries the vendor-stripped path of its object's package iff the object is a package-level object of another package, else none (qualified selectors collapse onto one identifier); " +
 			"the syntax-only resolver must agree on files without dot-imports and without shadowing, and must return an error for dot-imports and for two imports bound to one name, also when the same resolver instance is asked again about the same file; state = generated file; non-trivial = file with at least one remote reference",
 		Assumptions: []string{"go/types of this toolchain defines what an identifier denotes", "programs range over the role catalogue"},
@@ -203,21 +207,26 @@ func init() {
 							if local > 0 && (len(rs) != 1 || second || sh > 1) {
 								continue // the local package's own location: single roles
 							}
-							cs := c09Case{Dep: d, Style: style, Roles: rs, Shadow: sh, Second: second, Local: local}
-							o, applicable, remote := c09Check(cs)
-							if !applicable {
-								ctx.Count("excluded: generated file does not type-check", 1)
-								if len(rs) == 1 {
-									ctx.Count(fmt.Sprintf("excluded role %d style %s shadow %d", rs[0], style, sh), 1)
+							for _, blanks := range []bool{false, true} {
+								if blanks && (len(rs) != 1 || sh > 0 || local > 0) {
+									continue // two blank imports next to the import under test: single roles
 								}
-								continue
-							}
-							cs.Src = c09Source(cs)
-							ctx.State(fmt.Sprint(local, cs.Src), remote > 0)
-							ctx.R.Transitions++
-							ctx.Eval(cs, o)
-							if sh == 1 && len(rs) == 1 && rs[0] == 3 {
-								ctx.Sample(cs)
+								cs := c09Case{Dep: d, Style: style, Roles: rs, Shadow: sh, Second: second, Local: local, Blanks: blanks}
+								o, applicable, remote := c09Check(cs)
+								if !applicable {
+									ctx.Count("excluded: generated file does not type-check", 1)
+									if len(rs) == 1 {
+										ctx.Count(fmt.Sprintf("excluded role %d style %s shadow %d", rs[0], style, sh), 1)
+									}
+									continue
+								}
+								cs.Src = c09Source(cs)
+								ctx.State(fmt.Sprint(local, blanks, cs.Src), remote > 0)
+								ctx.R.Transitions++
+								ctx.Eval(cs, o)
+								if sh == 1 && len(rs) == 1 && rs[0] == 3 {
+									ctx.Sample(cs)
+								}
 							}
 						}
 					}
